@@ -12,6 +12,7 @@ import (
 
 	"github.com/brocaar/lorawan"
 	"github.com/brocaar/lorawan/backend/joinserver"
+	"verifharness/internal/cases"
 	"verifharness/internal/cq"
 )
 
@@ -296,7 +297,16 @@ type answer struct {
 
 var keyNames = [5]string{"SNwkSIntKey", "FNwkSIntKey", "NwkSEncKey", "NwkSKey", "AppSKey"}
 
+// send: one request, watched by the harness watchdog (a handler that does not return is reported
+// as hang:<body> instead of blocking the check)
 func send(h http.Handler, body string) (a answer) {
+	cases.Begin("ServeHTTP:"+body, map[string]interface{}{"api": "joinserver.NewHandler(config).ServeHTTP (POST body)", "body": body})
+	defer cases.End()
+	return sendUnwatched(h, body)
+}
+
+// sendUnwatched: used from the concurrent runs (the watchdog slot is process-wide)
+func sendUnwatched(h http.Handler, body string) (a answer) {
 	rec := httptest.NewRecorder()
 	func() {
 		defer func() {
